@@ -142,3 +142,93 @@ func nativeTraces(spec *Unit, p *Program, harnesses []string, params map[string]
 	}
 	return res, out, nil
 }
+
+// validateAgainstNative runs every harness natively on random concrete inputs
+// and re-executes the same inputs in the engine; observations and assertion
+// outcomes must coincide. Returns the number of traces that matched.
+func validateAgainstNative(p *Program, u *Unit, results []*HarnessResult, tier string, o *runOpts) (int, []string) {
+	n := 12
+	if tier == "thorough" {
+		n = 40
+	}
+	if s := os.Getenv("VERIF_NTRACES"); s != "" {
+		fmt.Sscan(s, &n)
+	}
+	var names []string
+	params := map[string]map[string]int{}
+	for _, r := range results {
+		if r.unit != u {
+			continue
+		}
+		hs := findHarness(u, r.Func)
+		if hs.Native == "none" || hs.NoDiff {
+			continue
+		}
+		names = append(names, r.Func)
+		params[r.Func] = r.Params
+	}
+	if len(names) == 0 {
+		return 0, nil
+	}
+	traces, out, err := nativeTraces(u, p, names, params, n, o.seed)
+	if err != nil {
+		return 0, []string{"native trace run failed for " + u.Package + ": " + err.Error() + ": " + lastLines(out, 8)}
+	}
+	var problems []string
+	total := 0
+	for _, r := range results {
+		if r.unit != u {
+			continue
+		}
+		hs := findHarness(u, r.Func)
+		matched := 0
+		for i, tr := range traces[r.Func] {
+			if tr.Panic != "" {
+				continue // a native panic (e.g. index out of range in the code under test) is compared as such below
+			}
+			obs, failed, end := runConcrete(p, u, hs, tier, tr.Nondet)
+			if tr.Assume {
+				if end.kind != "assume" && end.kind != "infeasible" {
+					problems = append(problems, fmt.Sprintf("%s trace %d: native hit a failed assumption, engine ended %s %s", r.Func, i, end.kind, end.msg))
+				} else {
+					matched++
+				}
+				continue
+			}
+			if end.kind != "done" {
+				problems = append(problems, fmt.Sprintf("%s trace %d: engine ended with %s (%s), native completed; inputs %v", r.Func, i, end.kind, end.msg, tr.Nondet))
+				continue
+			}
+			if strings.Join(obs, ";") != strings.Join(tr.Obs, ";") || strings.Join(failed, ";") != strings.Join(tr.Failed, ";") {
+				problems = append(problems, fmt.Sprintf("%s trace %d: engine and native disagree: engine obs=%v failed=%v; native obs=%v failed=%v; inputs %v", r.Func, i, obs, failed, tr.Obs, tr.Failed, tr.Nondet))
+				continue
+			}
+			matched++
+		}
+		r.Stats.Validated = matched
+		total += matched
+	}
+	return total, problems
+}
+
+func runConcrete(p *Program, u *Unit, hs *HarnessSpec, tier string, vals []replayVal) (obs, failed []string, end pathEnd) {
+	ts := u.tierFor(hs, tier)
+	solver, err := NewSolver([]string{"z3", "-in"}, 10000)
+	if err != nil {
+		return nil, nil, pathEnd{"unsupported", err.Error()}
+	}
+	defer solver.Close()
+	ex := &Explorer{solver: solver, stats: newStats(), maxSteps: ts.MaxSteps, maxViolPerID: 1}
+	ex.fixed = vals
+	if ex.fixed == nil {
+		ex.fixed = []replayVal{}
+	}
+	hu := *u
+	hu.params = ts.Params
+	in := p.newInterp(&hu, hs, tier, ex)
+	ex.in = in
+	fn := p.pkg.Func(hs.Func)
+	ex.path = &Path{model: Model{}, names: map[string]int{}}
+	end = in.runPath(func() { in.callSSA(nil, 0, fn, nil, nil) })
+	return ex.obs, ex.failed, end
+}
